@@ -85,10 +85,20 @@ type hitRT struct {
 	bodies   []*recBody
 	respHdr  http.Header
 	payload  []byte
-	lastLen  int // body length of the most recent request
+	lastLen  int  // body length of the most recent request
+	warm     bool // the next exchange is the one before the observed one: a 200 whose body fails after five bytes
 }
 
 func (rt *hitRT) RoundTrip(req *http.Request) (*http.Response, error) {
+	if rt.warm {
+		rt.warm = false
+		if req.Body != nil {
+			_, _ = io.Copy(io.Discard, req.Body)
+			req.Body.Close()
+		}
+		return &http.Response{Status: "200 OK", StatusCode: 200, Proto: "HTTP/1.1", ProtoMajor: 1, ProtoMinor: 1, Header: http.Header{}, Request: req,
+			ContentLength: -1, Body: &recBody{data: []byte("WWWWWWWWWWWW"), fault: 5}}, nil
+	}
 	rt.calls++
 	rt.lastLen = 0
 	if req.Body != nil {
@@ -187,13 +197,19 @@ func runHitCase(c *hitCase, seed int64) KV {
 	}
 	atk := vegeta.NewAttacker(opts...)
 	calls := 0
-	pacer := stopAfter{&calls, 1}
+	// every fourth case the Attacker has an exchange behind it whose body failed midway (one worker: the observed hit comes
+	// second); what the observed hit reports is its own exchange all the same
+	before := 0
+	if seed%4 == 2 && c.Tgt == "ok" && c.Build == "ok" {
+		before, rt.warm = 1, true
+	}
+	pacer := stopAfter{&calls, 1 + before}
 	var res *vegeta.Result
 	n := 0
 	done := make(chan struct{})
 	go func() {
 		for r := range atk.Attack(targeter, pacer, 0, c.Name) {
-			if n == 0 {
+			if n == before {
 				res = r
 			}
 			n++
@@ -208,7 +224,8 @@ func runHitCase(c *hitCase, seed int64) KV {
 	if res == nil {
 		return KV{"hung": true}
 	}
-	o := KV{"results": n, "method_url_ok": res.Method == tgt.Method && res.URL == tgt.URL, "attack_ok": res.Attack == c.Name, "seq_ok": res.Seq == 0,
+	n -= before
+	o := KV{"results": n, "method_url_ok": res.Method == tgt.Method && res.URL == tgt.URL, "attack_ok": res.Attack == c.Name, "seq_ok": res.Seq == uint64(before),
 		"code": int(res.Code), "err_empty": res.Error == "", "body_len": len(res.Body), "body_prefix_ok": bytes.HasPrefix(payload, res.Body) || len(res.Body) == 0,
 		"bytes_in": res.BytesIn, "bytes_out": res.BytesOut, "error": res.Error,
 		"headers_ok": reflect.DeepEqual(res.Headers, rt.respHdr) || (c.Policy == "nofollow" && c.Chain > 0 && res.Headers.Get("Location") != "")}
